@@ -358,7 +358,7 @@ def check_limits_and_pickling(prog, ctx, car):
     check_forwarding(prog, ctx, rule="C14.D5", only_limits=True)
 
 
-def check_reentry_keeps_evolved_state(prog, ctx):
+def check_reentry_keeps_evolved_state(prog, ctx, rule="C14.D8"):
     """D8: state that evolves during refinement (attributes some strategy method updates in place / augments: lmax, ...) is
     initialised by init_adaptive_combi only for a fresh start (under `refinement_container is None`), never when the run re-enters with
     a given refinement container (restored from file, or handed over from an earlier run)."""
@@ -384,19 +384,19 @@ def check_reentry_keeps_evolved_state(prog, ctx):
             continue
         n += 1
         guards = [g for (g, gn) in R.dominating_guards(iac, R.cfg_node(iac, s_.stmt), tm) if gn.kind == "test"]
-        ctx.check(fresh in guards, "C14.D8", R.key_of(iac, "fresh-start-only:%s" % s_.attr), iac.loc(s_.stmt),
+        ctx.check(fresh in guards, rule, R.key_of(iac, "fresh-start-only:%s" % s_.attr), iac.loc(s_.stmt),
                   "self.%s is initialised only for a fresh start" % s_.attr,
                   "`%s` runs also when init_adaptive_combi re-enters with a given refinement container: self.%s, which the refinement "
                   "raises / updates in place, falls back to its initial value while the restored refinement structures keep their depth"
                   % (src(s_.stmt), s_.attr))
-    ctx.floor("C14.D8", n, 1, "initialisations of evolving state in init_adaptive_combi")
+    ctx.floor(rule, n, 1, "initialisations of evolving state in init_adaptive_combi")
     # the operation's own start-up (it empties the evaluation cache, the point count and the accumulators) belongs to a fresh start too: a
     # run that re-enters with a given refinement must keep what the earlier run evaluated
     for call in R.calls_in(iac.node):
         f_ = call.func
         if isinstance(f_, ast.Attribute) and f_.attr == "initialize" and R.self_attr(f_.value, iac.self_name) == "operation":
             guards = [g for (g, gn) in R.dominating_guards(iac, R.cfg_node(iac, call), tm) if gn.kind == "test"]
-            ctx.check(fresh in guards, "C14.D8", R.key_of(iac, "fresh-start-only:operation.initialize"), iac.loc(call),
+            ctx.check(fresh in guards, rule, R.key_of(iac, "fresh-start-only:operation.initialize"), iac.loc(call),
                       "the operation is (re-)initialised only for a fresh start",
                       "`%s` runs also when init_adaptive_combi re-enters with a given refinement container: the operation's evaluation cache and "
                       "point count are emptied although the run continues" % src(call))
